@@ -1080,6 +1080,12 @@ func main() {
 		return
 	}
 	qp := findPkg(pkgs, "/lib/query")
+	if out := os.Getenv("ERRFACTS_SIZE_LEAN"); out != "" { // second output: the size sites (sizefacts.go), written beside the main one
+		writeSizeFacts(qp, out, os.Getenv("ERRFACTS_SIZE_JSON"))
+		if os.Getenv("ERRFACTS_ONLY_SIZE") != "" {
+			return
+		}
+	}
 	ret, num, consts := parseConsts(qp, "error_code.go")
 	ctors := parseCtors(pkgs, consts)
 	docCodes, sigBase := parseDocCodes(root)
